@@ -335,7 +335,65 @@ BOX_REQ_SYMS = ("a", "b", "x")
 
 
 @st.composite
+def word_cases(draw):
+    """Patterns shaped like the level ordering patterns: an alternation of 2-3 plain words (1-4 symbols, now and then
+    one of them optional or repeated); required = one of the words with some symbols dropped, which the library has to
+    put back. Competing branches of equal length differ only in what was inserted where."""
+    scheme = draw(st.sampled_from(R.SCHEMES))
+    alphabet = list(scheme[:4])
+
+    def word():
+        items = []
+        syms = draw(st.lists(st.sampled_from(alphabet), min_size=1, max_size=4))
+        for a in syms:
+            node = R.sym(a)
+            m = draw(st.sampled_from([None] * 8 + ["opt", "star"]))
+            items.append((m, node) if m else node)
+        tree = items[0]
+        for it in items[1:]:
+            tree = ("cat", tree, it)
+        return tree, syms
+
+    if draw(st.booleans()):
+        # sibling words: the same core (the required symbols) in different contexts, so that branches which have consumed
+        # the same required symbols after the same number of steps compete
+        core = draw(st.lists(st.sampled_from(alphabet), min_size=1, max_size=2))
+
+        def sibling():
+            syms = (draw(st.lists(st.sampled_from(alphabet), max_size=2)) + core
+                    + draw(st.lists(st.sampled_from(alphabet), max_size=2)))
+            tree = R.sym(syms[0])
+            for a in syms[1:]:
+                tree = ("cat", tree, R.sym(a))
+            return tree, syms
+
+        words = [sibling() for _ in range(draw(st.sampled_from([2, 2, 3])))]
+        tree = words[0][0]
+        for w, _ in words[1:]:
+            tree = ("alt", tree, w)
+        depth = draw(st.sampled_from([1, 2, 2, 3]))
+        prio = [] if draw(st.booleans()) else draw(st.lists(st.sampled_from(alphabet + ["X"]), min_size=1, max_size=3, unique=True))
+        return [tree], scheme, draw(st.integers(0, (1 << 32) - 1)), list(core), depth, prio
+    words = [word() for _ in range(draw(st.sampled_from([2, 2, 3])))]
+    tree = words[0][0]
+    for w, _ in words[1:]:
+        tree = ("alt", tree, w)
+    trees = [tree]
+    if draw(st.integers(0, 5)) == 0:
+        trees.append(draw(R.sized_tree(scheme[:3], draw(st.integers(1, 3)))))
+        trees[-1] = R.repair_eos(trees[-1], R.sym(scheme[0]))
+    base = words[draw(st.integers(0, len(words) - 1))][1]
+    keep = draw(st.lists(st.booleans(), min_size=len(base), max_size=len(base)))
+    required = [a for a, k in zip(base, keep) if k]
+    depth = draw(st.sampled_from([1, 2, 2, 3, 3, 4]))
+    prio = [] if draw(st.booleans()) else draw(st.lists(st.sampled_from(alphabet + ["X"]), min_size=1, max_size=3, unique=True))
+    return trees, scheme, draw(st.integers(0, (1 << 32) - 1)), required, depth, prio
+
+
+@st.composite
 def generated_cases(draw):
+    if draw(st.integers(0, 9)) < 4:
+        return draw(word_cases())
     scheme = draw(st.sampled_from(R.SCHEMES))
     npat = draw(st.sampled_from([1, 1, 2, 2, 2, 3]))
     trees = []
@@ -493,7 +551,7 @@ def run_shard(spec, ctx):
                    {"part": "generated", "required": list(required), "patterns": texts, "depth_limit": depth,
                     "symbol_priority": prio})
 
-        run_given(generated_cases(), body, ctx, ctx.pick(120, 6000))
+        run_given(generated_cases(), body, ctx, ctx.pick(400, 8000))
 
 
 def replay(data, col):
